@@ -84,3 +84,8 @@ M("c07_oserror_subclass_flattened", ["C07"],
 M("c07_stream_error_after_items_becomes_stop", ["C07"],
   ("Pyro5/server.py", "        try:\n            return next(stream)\n        except Exception:\n            # in case of error (or StopIteration!) the stream is removed\n            del self.daemon.streaming_responses[streamId]\n            raise",
    "        try:\n            item = next(stream)\n            self.daemon.__dict__.setdefault(\"_v_produced\", set()).add(streamId)\n            return item\n        except Exception:\n            # in case of error (or StopIteration!) the stream is removed\n            del self.daemon.streaming_responses[streamId]\n            if streamId in self.daemon.__dict__.get(\"_v_produced\", ()):\n                raise StopIteration()\n            raise"))
+# 9370374 "fix: msgpack decodes extension types in call arguments too" - belongs to C01; seen from C07 the exception spec crosses the
+# wire as a call argument, so big ints inside it reach the server as ExtType objects
+M("c07_revert_msgpack_call_ext_hook", ["C07"],
+  ("Pyro5/serializers.py", "    def loadsCall(self, data):\n        return msgpack.unpackb(self._convertToBytes(data), raw=False, object_hook=self.object_hook, ext_hook=self.ext_hook)",
+   "    def loadsCall(self, data):\n        return msgpack.unpackb(self._convertToBytes(data), raw=False, object_hook=self.object_hook)"))
